@@ -219,8 +219,12 @@ Definition post_start_ok (c : nat) (t : list tev) : bool :=
        failure text for Err/panic; (no state, "killed") only if kill() was called on it and it
        neither failed nor completed post_stop; (no state, "actor_task_cancelled") only if its task
        was aborted; (state, reason) only if post_stop returned Ok, with "Drained" only if a drain
-       was requested and any other reason only if stop() was called with that reason. *)
-Definition judge_sup (links : list (option nat)) (seen : list tev) (s : nat) (x : supevt) : bool :=
+       was requested and any other reason only if stop() was called with that reason.
+   [locals]: which actors are thread-local (ractor/src/thread_local/inner.rs).  Their State is
+   not Send and the runtime documents that it therefore never boxes it into the event: for a
+   thread-local child the graceful ActorTerminated carries NO state (and one that did carry a
+   state is rejected); nothing else differs. *)
+Definition judge_sup (links : list (option nat)) (locals : list bool) (seen : list tev) (s : nat) (x : supevt) : bool :=
   let c := about x in
   onat_eqb (nth c links None) (Some s)
   && match x with
@@ -230,12 +234,14 @@ Definition judge_sup (links : list (option nat)) (seen : list tev) (s : nat) (x 
      | STerminated _ st reason =>
          Nat.eqb (count_sup s (fun y => is_terminal y && Nat.eqb (about y) c) seen) 0
          && match ending_of c seen EndNone, st, reason with
-            | EndGraceful, true, Some 1 =>
+            | EndGraceful, st', Some 1 =>
                 (* "Drained": a drain was requested, or a stop that carried this very reason *)
-                has_ev (fun e => match e with TDrainReq j => Nat.eqb j c | _ => false end) seen
-                || has_ev (fun e => match e with TStopReq j r' => Nat.eqb j c && onat_eqb (Some 1) r' | _ => false end) seen
-            | EndGraceful, true, r =>
-                has_ev (fun e => match e with TStopReq j r' => Nat.eqb j c && onat_eqb r r' | _ => false end) seen
+                Bool.eqb st' (negb (nth c locals false))
+                && (has_ev (fun e => match e with TDrainReq j => Nat.eqb j c | _ => false end) seen
+                    || has_ev (fun e => match e with TStopReq j r' => Nat.eqb j c && onat_eqb (Some 1) r' | _ => false end) seen)
+            | EndGraceful, st', r =>
+                Bool.eqb st' (negb (nth c locals false))
+                && has_ev (fun e => match e with TStopReq j r' => Nat.eqb j c && onat_eqb r r' | _ => false end) seen
             | EndNone, false, Some 0 =>
                 has_ev (fun e => match e with TKillReq j => Nat.eqb j c | _ => false end) seen
             | EndNone, false, Some 2 =>
@@ -250,18 +256,18 @@ Definition judge_sup (links : list (option nat)) (seen : list tev) (s : nat) (x 
             end
      end.
 
-Fixpoint check_C04_go (links : list (option nat)) (seen : list tev) (t : list tev) : bool :=
+Fixpoint check_C04_go (links : list (option nat)) (locals : list bool) (seen : list tev) (t : list tev) : bool :=
   match t with
   | [] => true
   | e :: r =>
     match e with
-    | TEnter s (Sup x) => judge_sup links seen s x
+    | TEnter s (Sup x) => judge_sup links locals seen s x
     | _ => true
-    end && check_C04_go links (seen ++ [e]) r
+    end && check_C04_go links locals (seen ++ [e]) r
   end.
 
-Definition check_C04 (links : list (option nat)) (t : list tev) : bool :=
-  check_C04_go links [] t.
+Definition check_C04 (links : list (option nat)) (locals : list bool) (t : list tev) : bool :=
+  check_C04_go links locals [] t.
 
 (* verdict codes of all actors (0 = accepted); used to report which rule failed *)
 Definition codes (n : nat) (t : list tev) : list nat :=
